@@ -28,6 +28,8 @@ EXPLANATION = (
     "with java.math.BigInteger methods mapped to the bigint primitives they implement (add -> bintPlus, compareTo(..) < 0 -> "
     "bintLT, ...), compared with the reference tree of the builtin. "
     "J6: the Java identifier mangling table gjSpecCharIdTable is injective and uniquely decodable (same rule as C16-M1). "
+    "J7: in genjava.c and javacode.c the value of every call that returns a JavaCode/JavaCodeList (the jc* constructors and the "
+    "gj0* generators) is used or explicitly cast to void: a fragment that is built and dropped changes the emitted program. "
     "Not decided: behaviour of generated classes; builtins beyond the table's end are 'not implemented in Java'.")
 
 JAVA_CAST_CLASS = {"int": "i64", "char": "char", "byte": "u8", "short": "i16", "float": "f32", "double": "f64", "long": "i64"}
@@ -88,6 +90,25 @@ def _has_java_residue(t):
     if t[0] in ("mcall", "scall", "sfield", "class", "cmp", "mem"):
         return True
     return any(_has_java_residue(x) for x in t[1:] if isinstance(x, tuple))
+
+
+def j7(rep):
+    """No Java fragment built by the generator is dropped."""
+    from . import dropped
+    total = 0
+    for unit in ("java/genjava.c", "java/javacode.c"):
+        f = common.extract(unit, all_trees=True)
+        short = unit.split("/")[-1]
+        sites, n = dropped.dropped_results(f, short, ("JavaCode", "JavaCodeList"))
+        total += n
+        for s_ in sites:
+            rep.violation("J7", "dropped-fragment:%s:%s:%s" % (short, s_["func"], s_["callee"]),
+                          "%s:%d (%s)" % (short, s_["line"], s_["func"]),
+                          "the %s returned by %s(...) is discarded: the generator builds a piece of Java and then emits the "
+                          "program without it" % (s_["type"], s_["callee"]))
+        if not sites:
+            rep.ok("J7", "no-dropped-fragment:" + short, sample={"calls returning JavaCode/JavaCodeList examined": n})
+    rep.floor("calls returning a Java fragment", total, 1000)
 
 
 def run(tier, only=None):
@@ -394,4 +415,5 @@ def run(tier, only=None):
     c16_mangle.check_mangle_table(rep, "J6", jrows, "genjava.c", "gjSpecCharIdTable")
     rep.assumptions += ["Java's int carries FOAM SInt by design: word-size dependent limits are compared by kind, not value",
                         "java.lang/java.math methods mean what their javadoc says (table JAVA_METHOD_MEANS)"]
+    j7(rep)
     return rep
